@@ -11,7 +11,7 @@ from __future__ import annotations
 from ..core import facets, sym, symeval
 from ..core.loader import Project
 from ..core.values import Arr, DiagMat, Sc, Seq
-from .distances import BN, WS, Run, block_roles, first_top_culprit, unmodelled_in
+from .distances import BN, WS, Run, block_roles, check_tiling, first_top_culprit, unmodelled_in
 
 
 def _law(rep, rule, run: Run, facet, decl, want, law_text, show):
@@ -118,6 +118,10 @@ def check_swap(rep, project, qual):
     r2 = Run(project, qual, "T", "S")
     fi = r1.fi
     D1, D2 = r1.cost_matrix(), r2.cost_matrix()
+    # necessary for 'adding points on the diagonal changes nothing' and for the closed forms against the empty diagram:
+    # diagonal copies pair with each other at cost 0 (the corner rows [M, M+N) × cols [N, M+N)) and every point can only
+    # reach its own diagonal copy — i.e. the four blocks sit where the statement's cost model puts them
+    check_tiling(rep, "MI-DIAG", r1, D1, fi)
     if len(D1.stores) != len(D2.stores):
         rep.unmodelled("MI-SWAP", fi, fi.node, "different number of block stores when the arguments are exchanged")
         return
@@ -168,7 +172,9 @@ def run(project: Project, rep, tier: str):
         "result degree 1 and every control/index-steering comparison between equal degrees ⇒ d(λS,λT)=λ·d(S,T) for "
         "all λ>0. MI-SHIFT assigns translation weights: result weight 0 and all comparisons between equal weights ⇒ "
         "invariance under diagonal translation. MI-SWAP: exchanging the arguments yields the transposed block "
-        "structure with equal normal forms. Proved for all finite non-empty inputs of any size in exact arithmetic, "
+        "structure with equal normal forms. MI-DIAG: the blocks of the augmented matrix tile it as the cost model of the "
+        "statement requires (diagonal-to-diagonal corner 0 at rows [M,M+N) × cols [N,M+N)), a necessary condition of "
+        "insensitivity to diagonal points and of the closed forms against the empty diagram. Proved for all finite non-empty inputs of any size in exact arithmetic, "
         "modulo the primitive table. Declined: d(X,X)=0, triangle inequality, diagonal points, closed forms against "
         "the empty diagram, bottleneck<=Wasserstein.")
     rep.assume("exact arithmetic; both diagrams non-empty after filtering; index-valued primitives "
@@ -187,3 +193,4 @@ def run(project: Project, rep, tier: str):
     rep.floor("MI-DEG", 6)
     rep.floor("MI-SHIFT", 6)
     rep.floor("MI-SWAP", 6)
+    rep.floor("MI-DIAG", 10)
